@@ -244,7 +244,10 @@ class Baton:
         except BaseException as exc:  # noqa: BLE001
             self._fail(SchedulerError(f"dispatch failed: {exc!r}"))
         if not self.main.acquire(timeout=self.timeout):
-            self.abort = True  # a blocked thread cannot be joined; it is a daemon
+            # the blocked thread cannot be joined (it is a daemon); the others run out
+            self.abort = True
+            for gate in self.sem:
+                gate.release()
             last = self.ex.events[-1] if self.ex.events else None
             msg = (
                 f"no enabled thread: thread {self.cur} holds the baton but reached neither a"
@@ -252,13 +255,15 @@ class Baton:
                 f" last event {last})"
             )
             raise Deadlock(msg)
+        if self.error is not None:
+            for t in threads:  # abandoned: they run to their end without the baton
+                t.join(min(self.timeout, 10.0))
+            raise self.error
         for t in threads:
             t.join(self.timeout)
             if t.is_alive():
                 msg = f"thread {t.name} did not terminate"
                 raise Deadlock(msg)
-        if self.error is not None:
-            raise self.error
         ex = self.ex
         ex.results = list(self.results)
         return ex
